@@ -87,7 +87,7 @@ pub fn run_sched_conv(sc: &SchedConvCase) -> SchedObs {
         // connection task
         let s2 = slots.clone();
         let ids: Vec<u32> = sc.case.conv.reqs.iter().map(|r| r.id).collect();
-        let conn_task = rt::thread::spawn(move || {
+        let conn_task = shuttle::thread::spawn(move || {
             let it = tiny_http::verif::client_connection(conn);
             for rq in it {
                 let id = interp::parse_id(rq.url(), "00000000");
@@ -118,7 +118,7 @@ pub fn run_sched_conv(sc: &SchedConvCase) -> SchedObs {
             let collect_first = sc.collect_first && gi == 0;
             let hold_after_read = sc.hold_after_read;
             let enter_order = sc.enter_order.clone();
-            handlers.push(rt::thread::spawn(move || {
+            handlers.push(shuttle::thread::spawn(move || {
                 if collect_first {
                     // every request of the group must become available while none is answered
                     let st = s3.st.lock().unwrap();
@@ -478,4 +478,39 @@ pub fn c11_oracle(sc: &SchedConvCase, so: &SchedObs) -> vcore::runner::Verdict {
     let mut g = if held >= 2 { Good { nontrivial: Some(so.exec.stats.trace_hash), classes: vec![], extra_evals: 0 } } else { Good::trivial() };
     g = g.class(class).class(format!("held={}", held.min(8))).class_if(edge, "1024/1025-edge").class_if(so.exec.stats.preemptions > 0, "preempted").class_if(sc.case.conv.reqs.iter().any(|r| matches!(r.framing, Framing::Chunked { .. })), "chunked");
     Verdict::Pass(g)
+}
+
+// ------------------------------------------------------------------------------------------
+// the sequential in-memory engine under the controlled runtime: a connection that blocks on
+// itself (e.g. waits for a writer turn that only it could release) is an exact deadlock report
+
+pub fn run_mem_sched(case: &ConvCase) -> (Observation, ExecEnd) {
+    let checks_done = Arc::new(AtomicBool::new(false));
+    let result: Arc<StdMutex<Observation>> = Arc::new(StdMutex::new(Observation::default()));
+    let c = case.clone();
+    let (cd, r2) = (checks_done.clone(), result.clone());
+    let exec = run_exec(&[], checks_done, move || {
+        let clock = rt::begin_execution();
+        let obs = crate::memrun::run_mem(&c, &crate::memrun::MemOpts::default());
+        *r2.lock().unwrap() = obs;
+        cd.store(true, Ordering::SeqCst);
+        clock.finish();
+    });
+    let obs = std::mem::take(&mut *result.lock().unwrap());
+    (obs, exec.end)
+}
+
+pub fn mem_sched_verdict(prop: &str, case: &ConvCase, oracle: &dyn Fn(&ConvCase, &Expected, &Observation) -> vcore::runner::Verdict) -> vcore::runner::Verdict {
+    let (obs, end) = run_mem_sched(case);
+    let class = case.conv.reqs.iter().find_map(|r| r.mal.as_ref().map(vcore::oracles::mal_class)).unwrap_or_else(|| "valid".to_string());
+    match end {
+        ExecEnd::Completed | ExecEnd::Deadlock { after_checks: true, .. } => {}
+        ExecEnd::Deadlock { after_checks: false, blocked } => {
+            return vcore::runner::fail(format!("{}/{}/stall", prop, class), format!("the connection blocked on itself (no runnable task): {}", blocked.chars().take(300).collect::<String>()));
+        }
+        ExecEnd::Panic(m) => return vcore::runner::fail(format!("{}/{}/panic", prop, class), m),
+        ExecEnd::StepBound => return vcore::runner::Verdict::Inconclusive("step bound".into()),
+    }
+    let exp = expect(case);
+    oracle(case, &exp, &obs)
 }
